@@ -86,3 +86,74 @@ def onScreen (xs : List Item) (s : String) (t : Int) : Prop :=
 
 end Spec
 end Astisub
+
+namespace Astisub
+namespace Spec
+
+/-! ## executable forms used by the driver on the implementation's output -/
+
+/-- the multiples of `f` strictly inside `(s, e)`, ascending (`f > 0`; `/` is floor division) -/
+def multiplesIn (f s e : Int) : List Int :=
+  let k0 := s / f + 1
+  let k1 := (e - 1) / f
+  (List.range (k1 - k0 + 1).toNat).map (fun (i : Nat) => (k0 + Int.ofNat i) * f)
+
+/-- the pieces `[s,b₁),[b₁,b₂),…,[b_k,e)` of a cue; the last piece is the original cue itself
+    (same identity), the others are fresh copies -/
+def cutSpec (f : Int) (it : Item) : List Item :=
+  let bs := multiplesIn f it.startAt it.endAt
+  let starts := it.startAt :: bs
+  let ends := bs ++ [it.endAt]
+  let n := bs.length
+  (List.zip starts ends).zipIdx.map fun (se, i) =>
+    { it with uid := if i = n then it.uid else 0, startAt := se.1, endAt := se.2 }
+
+def sortedByStart (ys : List Item) : Bool :=
+  match ys with
+  | [] => true
+  | y :: rest => (rest.all fun z => decide (y.startAt ≤ z.startAt)) && sortedByStart rest
+
+/-- the property predicate of C10 on an (input, output) pair: ordered by start, and exactly
+    the multiset of pieces prescribed by `cutSpec` -/
+def fragmentOk (f : Int) (xs ys : List Item) : Bool :=
+  sortedByStart ys && (ys.isPerm (xs.flatMap (cutSpec f)))
+
+def StartOrdered (xs : List Item) : Prop := xs.Pairwise (fun a b => a.startAt ≤ b.startAt)
+instance (xs : List Item) : Decidable (StartOrdered xs) := by unfold StartOrdered; infer_instance
+
+/-- executable predicate of C11 on an (input, output) pair:
+    * `ys` is ordered by start and no two of its cues touch;
+    * identities: `ys`'s uids are a sub-multiset of `xs`'s, every survivor kept its start and content
+      and its end did not shrink;
+    * display: for every text, the union of intervals is the same before and after (checked at
+      every boundary instant and every midpoint between consecutive boundaries);
+    * a cue that touched nothing in `xs` is present unchanged. -/
+def boundaries (xs : List Item) : List Int := xs.flatMap fun it => [it.startAt, it.endAt]
+
+def shownAt (xs : List Item) (s : String) (t2 : Int) : Bool :=
+  -- instants are doubled so that midpoints are representable: t2 = 2 * t
+  xs.any fun it => it.str == s && decide (2 * it.startAt ≤ t2) && decide (t2 < 2 * it.endAt)
+
+def unfragmentOk (xs ys : List Item) : Bool :=
+  let noTouch := ys.zipIdx.all fun (a, i) => ys.zipIdx.all fun (b, j) => i ≥ j || !decide (Touch a b)
+  let survivors := ys.all fun y => xs.any fun x =>
+    x.uid == y.uid && x.startAt == y.startAt && x.content == y.content && decide (x.endAt ≤ y.endAt)
+  let nodupUids := (ys.map (·.uid)).eraseDups.length == ys.length
+  let bs := (boundaries xs ++ boundaries ys).map (· * 2)
+  let probes := bs ++ bs.map (· + 1) ++ bs.map (· - 1)
+  let texts := (xs.map (·.str)).eraseDups
+  let display := texts.all fun s => probes.all fun t => shownAt xs s t == shownAt ys s t
+  let untouched := xs.all fun x =>
+    (xs.any fun z => z.uid != x.uid && decide (Touch x z)) || ys.contains x
+  sortedByStart ys && noTouch && survivors && nodupUids && display && untouched
+
+/-- C12 order: sorted, same multiset, equal-start cues in input order (uids are distinct in the harness) -/
+def orderOk (xs ys : List Item) : Bool :=
+  sortedByStart ys && ys.isPerm xs &&
+    (ys.zipIdx.all fun (a, i) => ys.zipIdx.all fun (b, j) =>
+      !(decide (i < j) && a.startAt == b.startAt) ||
+        -- a is before b in xs
+        ((xs.idxOf a) < (xs.idxOf b)))
+
+end Spec
+end Astisub
